@@ -14,20 +14,20 @@ def load(files):
     out = {}
     for f in files:
         for l in open(f):
-            m = re.match(r'\S*?(r\d-C\d\d)/patch\.diff (C\d\d) (DETECTED|MISSED)(?: rc=\S+ t=\S+ ?(.*))?', l.strip())
+            m = re.match(r'\S*?(r\d+-C\d\d)/patch\.diff (C\d\d) (DETECTED|MISSED)(?: rc=\S+ t=\S+ ?(.*))?', l.strip())
             if m:
                 out[(m.group(1), m.group(2))] = (m.group(3), (m.group(4) or '').strip())
     return out
 initial, final = load(args[:k]), load(args[k+1:])
 rows = []
-for sid in sorted(META):
+for sid in sorted(META, key=lambda x: (int(x[1:x.index('-')]), x)):
     prop, change, needs = META[sid]
     d = os.path.join(root, 'seeded', sid)
     det = sorted(c for (s, c), (v, _) in final.items() if s == sid and v == 'DETECTED')
     rules = {c: final[(sid, c)][1] for c in det}
     ini = initial.get((sid, prop), ('not run', ''))[0]
     meta = {
-        'id': sid, 'breaks_property': prop, 'source': 'independent sub-agent given only the property text and a scratch worktree (round %s)' % sid[1],
+        'id': sid, 'breaks_property': prop, 'source': 'independent sub-agent given only the property text and a scratch worktree (round %s)' % sid[1:sid.index('-')],
         'change': change, 'needs_to_manifest': needs,
         'confirmed': 'scripts/seed_verify.sh seeded/%s: patch applies and compiles on /repo HEAD; scripts/baseline.sh on the patched tree: 766/766 stable tests pass; demo_test.go (go test -run TestSeeded) FAILS with the patch and PASSES without it' % sid,
         'checks_run': 'scripts/mutants_all.sh seeded/MAP.tsv (quick tier of the listed checks on a scratch worktree with the patch applied)',
